@@ -11,6 +11,7 @@ import (
 func init() {
 	vpHarnesses["vpC09_O1"] = vpC09_O1
 	vpHarnesses["vpC09_O4"] = vpC09_O4
+	vpHarnesses["vpC09_O5"] = vpC09_O5
 }
 
 // vpxCorrupt invalidates the signature of a signed message.
@@ -144,4 +145,29 @@ func vpC09_O4() {
 	vpAssert("second witness updated with the same update object", errB == nil && vpWitnessValidAgainst(witB, h.accs[n], h.pk))
 	errA2 := witA.Update(h.pk, upd)
 	vpAssert("re-applying the update is harmless", errA2 == nil && vpWitnessValidAgainst(witA, h.accs[n], h.pk))
+}
+
+// C09-O5: an update that carries a signed accumulator but no events (what a holder
+// receives when the issuer only re-signs, or when the events were cut off): the
+// witness either stays as it was or ends valid against the accumulator it now
+// carries; it never adopts an accumulator its U does not match.
+func vpC09_O5() {
+	n := vpParam("nevents", 2)
+	h := vpBuildHistory(n)
+	w := vpChoose("w", n+1)
+	wit := h.witness("E", w, 0)
+	i1 := vpChoose("i1", n+1)
+	full := h.update(i1, i1)
+	upd := &Update{SignedAccumulator: full.SignedAccumulator}
+	if vpBool("emptySlice") {
+		upd.Events = []*Event{}
+	}
+	oldU, oldSacc := wit.U, wit.SignedAccumulator
+	err := wit.Update(h.pk, upd)
+	cur := wit.SignedAccumulator.Accumulator
+	vpAssert("witness never moves backwards", cur.Index >= h.accs[w].Index)
+	vpAssert("the witness still verifies against the accumulator it carries", wit.Verify(h.pk) == nil && verify(wit.U, wit.E, cur, h.pk))
+	if err != nil || i1 != w {
+		vpAssert("an event-less update for another index changes nothing", wit.U == oldU && wit.SignedAccumulator == oldSacc)
+	}
 }
